@@ -280,6 +280,9 @@ func runC05(c *Ctx) {
 						}
 					}
 				}
+				// the same derivation as a judged history: the public child, its string, the string read back
+				c.Run([]Event{hdCfg(), {"op": "NewMaster", "dst": 1, "seed": ints(seedZ), "net": 1 + k%len(nets)}, {"op": "Neuter", "src": 1, "dst": 2},
+					{"op": "Child", "src": 2, "dst": 3, "idx": w32(ix)}, {"op": "Reparse", "src": 3, "dst": 4}, {"op": "Child", "src": 4, "dst": 5, "idx": w32(2)}})
 			}
 		}
 		for bi, base := range []*hdkeychain.ExtendedKey{m, ch, pub, pc} {
